@@ -1,1 +1,188 @@
--- C07: property theorems (to be filled in)
+/-
+C07 — property theorems.
+
+Statement of the property (full strength):
+    ∀ D T (h : List OpO) (p : Probe), runProbeNew D T (runO D h s₀) p = freshResult D T p
+    ∀ D T h p e, (runO D h s₀).execs[e]? has backend p.b → runProbeOn D T (runO D h s₀) p e = freshResult D T p
+It is FALSE of the code as it stands (ten `leak_counterexample_*` theorems below, each replayed on
+the real code and listed in known_findings.jsonl).  What is proved is the statement for every
+history all of whose operations are benign for the probe (`benignNew`, `benignOn`: decidable, the
+excluded clauses are exactly the counterexample classes), for every translator function `T` and
+every defaults table `D`; plus the repair theorems (`reset_restores`, `success_heals_partial`).
+Helper lemmas live in `Proofs.lean`.
+-/
+import FaxVerif.C07.Proofs
+namespace FaxVerif.C07
+
+/-- **What the translator can see.**  Two situations (state, executor) in which the registry agrees
+on the (type, method) pairs the probe looks up, the namespace registry agrees below the names it
+resolves, the effective extended-metadata dict agrees on the kinds its metadata uses (and the caller
+does not register itself), the executors have the same backend and the same accumulated job-script
+blocks and have found the same extended metadata of the kinds asked for, give the same result —
+whatever else differs (other registry entries, other executors, inject blocks, name counter) and
+whatever the translator function is. -/
+theorem result_depends_on_view_only (D : Defaults) (T : Translator) (p : Probe) (s₁ s₂ : HState)
+    (e₁ e₂ : Nat) (ex₁ ex₂ : Exec)
+    (h₁ : s₁.execs[e₁]? = some ex₁) (h₂ : s₂.execs[e₂]? = some ex₂)
+    (hb : ex₁.backend = ex₂.backend) (hj : ex₁.job = ex₂.job)
+    (hreg : ∀ k ∈ p.q.keys, alookup s₁.reg k = alookup s₂.reg k)
+    (hns : ∀ t ∈ p.q.names, s₁.ns.restrict t = s₂.ns.restrict t)
+    (hx : ∀ kind ∈ mdKinds p.md, kind ∉ akeys p.xadd → alookup (effXmd s₁ ex₁) kind = alookup (effXmd s₂ ex₂) kind)
+    (hf : ex₁.found.filter (fun f => decide (f.1 ∈ akeys p.xadd)) = ex₂.found.filter (fun f => decide (f.1 ∈ akeys p.xadd))) :
+    runProbeOn D T s₁ p e₁ = runProbeOn D T s₂ p e₂ :=
+  probe_congr D T p s₁ s₂ e₁ e₂ ex₁ ex₂ h₁ h₂ hb hj hreg hns hx hf
+
+/-- **Clean state ⇒ fresh result (new executor).**  If nothing the probe can see has been left
+behind (`cleanNew`: decidable), translating it on a newly created executor gives exactly what the
+first query of a fresh process gives. -/
+theorem clean_new_indep (D : Defaults) (T : Translator) (p : Probe) (s : HState)
+    (hc : cleanNew D p s = true) : runProbeNew D T s p = freshResult D T p := by
+  obtain ⟨hr, hn, hx⟩ := (cleanNew_iff D p s).1 hc
+  rw [regCleanNew_iff] at hr; rw [nsClean_iff] at hn; rw [xmdClean_iff] at hx
+  unfold freshResult runProbeNew
+  apply probe_congr D T p (newExec D s p.b) (newExec D s₀ p.b) s.execs.length s₀.execs.length
+    ⟨p.b, [], [], true, [], []⟩ ⟨p.b, [], [], true, [], []⟩
+  · simp [newExec]
+  · simp [newExec, s₀]
+  · rfl
+  · rfl
+  · intro k hk
+    show alookup (ainsertAll s.reg (D p.b)) k = alookup (ainsertAll s₀.reg (D p.b)) k
+    by_cases hd : k ∈ dkeys D p.b
+    · exact alookup_ainsertAll_of_mem (D p.b) _ _ k hd
+    · rw [alookup_ainsertAll_of_not_mem (D p.b) _ k hd, alookup_ainsertAll_of_not_mem (D p.b) _ k hd]
+      rcases hr k hk with h | h
+      · exact absurd h hd
+      · rw [h]; rfl
+  · intro t ht
+    show s.ns.restrict t = s₀.ns.restrict t
+    rw [hn t ht]; rfl
+  · intro kind hk hnk
+    show alookup s.sharedXmd kind = alookup s₀.sharedXmd kind
+    rcases hx kind hk with h | h
+    · exact absurd h hnk
+    · rw [h]; rfl
+  · rfl
+
+theorem cleanOn_iff (D : Defaults) (p : Probe) (s : HState) (e : Nat) :
+    cleanOn D p s e = true ↔ ∃ ex, s.execs[e]? = some ex ∧ ex.backend = p.b ∧ regCleanOn D p s = true ∧
+      nsClean p s = true ∧ xmdClean p (effXmd s ex) = true ∧ ex.job = [] ∧ ∀ f ∈ ex.found, f.1 ∉ akeys p.xadd := by
+  unfold cleanOn
+  cases h : s.execs[e]? with
+  | none => simp
+  | some ex => simp [Bool.and_eq_true, List.all_eq_true, and_assoc, List.isEmpty_iff]
+
+/-- **Clean state ⇒ fresh result (existing executor).** -/
+theorem clean_on_indep (D : Defaults) (T : Translator) (p : Probe) (s : HState) (e : Nat)
+    (hc : cleanOn D p s e = true) : runProbeOn D T s p e = freshResult D T p := by
+  obtain ⟨ex, he, hb, hr, hn, hx, hj, hf⟩ := (cleanOn_iff D p s e).1 hc
+  rw [regCleanOn_iff] at hr; rw [nsClean_iff] at hn; rw [xmdClean_iff] at hx
+  unfold freshResult runProbeNew
+  apply probe_congr D T p s (newExec D s₀ p.b) e s₀.execs.length ex ⟨p.b, [], [], true, [], []⟩ he
+  · simp [newExec, s₀]
+  · exact hb
+  · exact hj
+  · intro k hk
+    rw [hr k hk]; rfl
+  · intro t ht
+    rw [hn t ht]; rfl
+  · intro kind hk hnk
+    rcases hx kind hk with h | h
+    · exact absurd h hnk
+    · rw [h]; rfl
+  · have : ex.found.filter (fun f => decide (f.1 ∈ akeys p.xadd)) = [] := by
+      apply List.filter_eq_nil_iff.2
+      intro f hf'; simpa using hf f hf'
+    rw [this]; rfl
+
+/-- **Benign operations keep the state clean (new-executor probe).** -/
+theorem benign_preserves_new (D : Defaults) (p : Probe) (s : HState) (o : OpO)
+    (hc : cleanNew D p s = true) (hb : benignNew D p s o = true) : cleanNew D p (stepO D s o) = true := by
+  obtain ⟨hr, hn, hx⟩ := (cleanNew_iff D p s).1 hc
+  rw [regCleanNew_iff] at hr; rw [nsClean_iff] at hn; rw [xmdClean_iff] at hx
+  rw [cleanNew_iff, regCleanNew_iff, nsClean_iff, xmdClean_iff]
+  cases o with
+  | new b' =>
+    have hb' : b' = p.b ∨ ∀ k ∈ p.q.keys, k ∉ dkeys D b' := by
+      simpa [benignNew, List.all_eq_true] using hb
+    refine ⟨?_, hn, hx⟩
+    intro k hk
+    by_cases hd : k ∈ dkeys D p.b
+    · exact Or.inl hd
+    · right
+      have hnb : k ∉ dkeys D b' := by
+        rcases hb' with h | h
+        · rw [h]; exact hd
+        · exact h k hk
+      show alookup (ainsertAll s.reg (D b')) k = none
+      rw [alookup_ainsertAll_of_not_mem (D b') _ k hnb]
+      rcases hr k hk with h | h
+      · exact absurd h hd
+      · exact h
+  | addXmd e x =>
+    cases he : s.execs[e]? with
+    | none => simp only [stepO, addXmd, he]; exact ⟨hr, hn, hx⟩
+    | some ex =>
+      by_cases hs : ex.xmdShared = true
+      · have hb' : ∀ k ∈ mdKinds p.md, k ∉ akeys x := by
+          simpa [benignNew, he, hs, List.all_eq_true] using hb
+        have e1 : stepO D s (.addXmd e x) = { s with sharedXmd := ainsertAll s.sharedXmd x } := by
+          simp only [stepO, addXmd, he, hs, if_true]
+        rw [e1]
+        refine ⟨hr, hn, ?_⟩
+        intro k hk
+        rcases hx k hk with h | h
+        · exact Or.inl h
+        · right
+          show alookup (ainsertAll s.sharedXmd x) k = none
+          rw [alookup_ainsertAll_of_not_mem x _ k (hb' k hk)]; exact h
+      · have hs' : ex.xmdShared = false := by simpa using hs
+        have e1 : stepO D s (.addXmd e x) = { s with execs := s.execs.set e { ex with xmdOwn := ainsertAll ex.xmdOwn x } } := by
+          simp only [stepO, addXmd, he, hs', Bool.false_eq_true, if_false]
+        rw [e1]; exact ⟨hr, hn, hx⟩
+  | translate e q md r =>
+    cases he : s.execs[e]? with
+    | none => rw [stepO_translate_noExec D s e q md r he]; exact ⟨hr, hn, hx⟩
+    | some ex =>
+      obtain ⟨fx, fn, fr, _⟩ := stepO_translate_fields D s e q md r ex he
+      have hb' : (∀ t ∈ enumTops md, t ∉ p.q.names.map some) ∧
+          (if reachedStage s ex md r = some .done then
+             (ex.backend = p.b ∨ ∀ k ∈ p.q.keys, k ∉ dkeys D ex.backend)
+           else ∀ k ∈ p.q.keys, k ∉ declKeys md) := by
+        have := hb
+        simp only [benignNew, he, Bool.and_eq_true, List.all_eq_true, decide_eq_true_eq] at this
+        refine ⟨this.1, ?_⟩
+        have h2 := this.2
+        split at h2
+        · rename_i hd; simp only [hd, if_true]
+          simpa [List.all_eq_true] using h2
+        · rename_i hd; simp only [hd, if_false]
+          simpa [List.all_eq_true] using h2
+      obtain ⟨hen, hreg⟩ := hb'
+      rw [fx, fn, fr]
+      refine ⟨?_, ?_, hx⟩
+      · intro k hk
+        by_cases hd : k ∈ dkeys D p.b
+        · exact Or.inl hd
+        · right
+          have hsk : alookup s.reg k = none := by
+            rcases hr k hk with h | h
+            · exact absurd h hd
+            · exact h
+          by_cases hdone : reachedStage s ex md r = some .done
+          · simp only [hdone, if_true] at hreg ⊢
+            apply alookup_defaultsReg_of_not_mem
+            rcases hreg with h | h
+            · rw [h]; exact hd
+            · exact h k hk
+          · simp only [hdone, if_false] at hreg ⊢
+            unfold mdOf
+            rw [mdRun_reg _ md k _ 0 (hreg k hk)]; exact hsk
+      · intro t ht
+        unfold mdOf
+        rw [mdRun_ns _ md t _ 0 ?_]
+        · exact hn t ht
+        · intro hc
+          exact hen _ hc (List.mem_map.2 ⟨t, ht, rfl⟩)
+
+end FaxVerif.C07
